@@ -7,6 +7,7 @@ from hypothesis import strategies as st
 
 from refs import coordsys as cs
 from vlib import util
+from vlib import defaults
 from vlib.core import Part
 
 PROPERTY = "C14"
@@ -935,4 +936,7 @@ PARTS = [
     # replace_basic_cs raises "assignment destination is read-only" under pandas 3 (suspected
     # defect): kept apart for the same reason
     Part("replace_basic", oracle_replace, strategy=replace_cases, quick=(1, 150), thorough=(8, 500)),
+    # documented defaults: leaving a keyword out = passing its documented value (vlib/defaults.py)
+    Part("defaults", defaults.make_oracle("C14"), enum=defaults.make_enum(), quick=(1, None), thorough=(1, None),
+         exhaustive=True),
 ]
